@@ -239,7 +239,7 @@ TRANSFORM_ENVS = ["Knapsack", "Maze@3x3", "Snake", "Cleaner@3x3x1", "GraphColori
                   "Tetris", "RubiksCube", "LevelBasedForaging", "JobShop", "Sudoku"]
 # minutes each (large batched encodings): thorough tier only
 THOROUGH_EXTRA = ["FlatPack", "Sokoban", "MultiCVRP", "Game2048", "RobotWarehouse", "BinPack@csv"]
-JOBTIMEOUT = {"quick": 600, "thorough": 3600}
+JOBTIMEOUT = {"quick": 600, "thorough": 2400}
 
 
 def jobs(tier, seed):
